@@ -17,6 +17,15 @@ part B  `subset=`: four 4-parameter classes x 2 value assignments x level x all 
         (serialising subset, deserialising subset) incl. None, subsets also given as tuple/set;
 part C  one class holding one parameter of every type, the lattice values rotated through it
         (the object-level loop over many parameters of mixed types);
+part E  class hierarchies X, Y, Z in which a subclass or sibling RE-DECLARES the parameter name ``p``
+        with another serializable Parameter type (Date<->CalendarDate, List<->Tuple,
+        Range<->CalendarDateRange, DateRange<->CalendarDateRange, Number<->Integer, NumericTuple<->List,
+        String<->CalendarDate, both directions) next to an inherited, not re-declared Tuple ``q``; shapes
+        chain (Y re-declares, Z inherits from Y), fork (Y re-declares, sibling Z keeps the base type), mid
+        (Z re-declares below an inheriting Y), sibs (siblings Y and Z declare different types, the base has
+        none); one case = one ORDER in which the three classes are round-tripped in the same process
+        (all 6 orders) x level per step {class, instance, inst->class} x api per step -- every step must
+        round-trip, whatever was (de)serialized before it (fresh classes per case);
 part D  (thorough; a seed-chosen slice in quick) pseudo-random floats, ints, strings, datetimes,
         dates and date ranges -- this also tests the assumed codecs (json float repr,
         strftime/strptime for the two literal formats).
@@ -361,6 +370,99 @@ def make_replay(clause, witness, decls, values_src, level, api, ss=None, ds=None
 LEVELS = ("class", "instance", "inst->class")
 APIS = ("parameters", "value")
 
+# ---------------------------------------------------------------------------------------------
+# part E: hierarchies re-declaring a name with another Parameter type
+# ---------------------------------------------------------------------------------------------
+# (type A, instance value A, type B, instance value B); every pair is used in both directions
+E_PAIRS = [
+    ("Date", "dt.datetime(2020, 1, 2, 3, 4, 5, 6)", "CalendarDate", "dt.date(2020, 1, 2)"),
+    ("List", "[1, 'a']", "Tuple", "(1, 'a')"),
+    ("Range", "(1.5, 2.5)", "CalendarDateRange", "(dt.date(2020, 1, 2), dt.date(2020, 1, 3))"),
+    ("DateRange", "(dt.datetime(2020, 1, 2, 3, 4, 5, 6), dt.datetime(2020, 1, 3))", "CalendarDateRange",
+     "(dt.date(2020, 1, 2), dt.date(2020, 1, 3))"),
+    ("Number", "1.5", "Integer", "7"),
+    ("NumericTuple", "(1, 2.5)", "List", "[1, 2.5]"),
+    ("String", "'2020-01-02'", "CalendarDate", "dt.date(2020, 1, 2)"),
+]
+# shape -> per class (name, base, which type its own declaration of p has: 'A' / 'B' / None = inherits)
+E_SHAPES = {
+    "chain": (("X", None, "A"), ("Y", "X", "B"), ("Z", "Y", None)),
+    "fork": (("X", None, "A"), ("Y", "X", "B"), ("Z", "X", None)),
+    "mid": (("X", None, "A"), ("Y", "X", None), ("Z", "Y", "B")),
+    "sibs": (("X", None, None), ("Y", "X", "A"), ("Z", "X", "B")),
+}
+E_Q_DECL = "param.Tuple(default=(0, 'z'), length=2)"
+E_Q_VALUE = "(1, 'a')"
+
+
+def e_hierarchy(shape, ta, va, tb, vb):
+    """-> (class source text, {class name: values source dict for an instance})"""
+    src, eff, vals = "", {}, {}
+    for cname, base, own in E_SHAPES[shape]:
+        lines = []
+        if base is None:
+            lines.append("    q = " + E_Q_DECL)
+        if own is not None:
+            t, v = (ta, va) if own == "A" else (tb, vb)
+            lines.append("    p = " + decl_src(t, neutral_src(t, v), ""))
+            eff[cname] = (t, v)
+        elif base in eff:
+            eff[cname] = eff[base]
+        src += "class %s(%s):\n%s\n" % (cname, base or "param.Parameterized", "\n".join(lines) or "    pass")
+        vals[cname] = dict({"q": E_Q_VALUE}, **({"p": eff[cname][1]} if cname in eff else {}))
+    return src, vals
+
+
+def e_run(src, vals, steps):
+    """steps: [(class name, level, api)] on FRESH classes; -> None or (index of the failing step, kind, detail)"""
+    ns = dict(_EVAL_NS)
+    exec(compile(src, "<c15-E>", "exec"), ns)
+    for i, (cname, level, api) in enumerate(steps):
+        res = roundtrip(ns[cname], {k: _ev(v) for k, v in vals[cname].items()}, level, api)
+        if res is not None:
+            return (i,) + tuple(res)
+    return None
+
+
+def e_shrink(src, vals, steps, kind):
+    """drop earlier steps while the LAST step still fails with the same kind"""
+    steps = list(steps)
+    changed = True
+    while changed:
+        changed = False
+        for j in range(len(steps) - 1):
+            cand = steps[:j] + steps[j + 1:]
+            r = e_run(src, vals, cand)
+            if r is not None and r[0] == len(cand) - 1 and r[1] == kind:
+                steps, changed = cand, True
+                break
+    return steps
+
+
+REPLAY_E = '''import warnings, logging
+warnings.simplefilter('ignore')
+logging.disable(logging.CRITICAL)
+{core}
+
+{cls}
+values = {values}
+steps = {steps!r}       # (class, level, api), round-tripped in this order in one process
+for i, (cname, level, api) in enumerate(steps):
+    res = roundtrip(globals()[cname], values[cname], level=level, api=api)
+    print('step %d: round trip of %s (level=%s, api=%s): %s' % (i, cname, level, api, 'ok' if res is None else res))
+    if res is not None:
+        print('REPRODUCED: %s -- %s' % res)
+        sys.exit(1)
+print('NOT-REPRODUCED')
+sys.exit(0)
+'''
+
+
+def make_replay_e(clause, witness, src, vals, steps):
+    head = REPLAY_HEADER.format(prop="C15", name="replay_c15.py", clause=clause, witness=witness)
+    values = "{" + ", ".join("%r: {%s}" % (c, ", ".join("%r: %s" % kv for kv in d.items())) for c, d in vals.items()) + "}"
+    return head + REPLAY_E.format(core=CORE_SRC, cls=src, values=values, steps=[tuple(x) for x in steps])
+
 
 # --------------------------------------------------------------------------------------------
 # pseudo-random extension of the lattices (part D)
@@ -427,7 +529,9 @@ def _run(tier, seed):
                "boundary years 1/999/1000/9999, microseconds, extreme floats, big ints, empty and nested "
                "containers, None) x 3 levels x 2 apis; 4 four-parameter classes x 2 assignments x 2 levels "
                "x 17x17 subset pairs (+ tuple/set forms); all-types class x rotated lattice x 3 levels x 2 "
-               "apis; pseudo-random values per type: %s") % ("1500 each (all)" if tier == "thorough"
+               "apis; 14 re-declaration pairs (7 type pairs, both directions) x 4 hierarchy shapes of 3 classes x "
+               "all 6 orders of round-tripping the classes x (level, api) per step; "
+               "pseudo-random values per type: %s") % ("1500 each (all)" if tier == "thorough"
                                                             else "a seed-chosen slice of 40 of 1500 each"))
     reported = {}      # (clause, type, vclass, kind) -> canonical witness
 
@@ -594,6 +698,57 @@ def _run(tier, seed):
                            "round=%d level=%s api=%s" % (r, level, api), detail,
                            (dsrc, assign, level, api))
     B.sample({"part": "C", "types": len(tnames), "rounds": rounds})
+
+    # ---------------------------------------------------------------- part E: re-declaring hierarchies
+    orders = list(itertools.permutations("XYZ"))
+    uniform = [((l,) * 3, (a,) * 3) for l in LEVELS for a in APIS]
+    mixed = [(ls, as_) for ls in itertools.product(LEVELS, repeat=3) for as_ in itertools.product(APIS, repeat=3)
+             if (ls, as_) not in uniform]
+    e_seen = {}
+    n_combo = 0
+    for ta, va, tb, vb in E_PAIRS + [(b, vb_, a, va_) for a, va_, b, vb_ in E_PAIRS]:
+        for shape in E_SHAPES:
+            src, vals = e_hierarchy(shape, ta, va, tb, vb)
+            n_combo += 1
+            if tier == "thorough":
+                las = uniform + mixed
+            else:       # quick: the uniform level/api assignments + a seed-chosen slice of the mixed ones
+                rnd = random.Random("E|%d|%s|%s|%s" % (seed, ta, tb, shape))
+                las = uniform + rnd.sample(mixed, 2)
+            for ls, as_ in las:
+                for order in orders:
+                    steps = [(c, l, a) for c, l, a in zip(order, ls, as_)]
+                    B.case(key=("E", ta, tb, shape, order, ls, as_))
+                    r = e_run(src, vals, steps)
+                    B.checked("C15/hierarchy/roundtrip-in-any-order", 3 if r is None else r[0] + 1)
+                    if r is None:
+                        continue
+                    i, kind, detail = r
+                    # one witness per (shape, minimal sequence of classes): the first type pair / level / api
+                    # that exhibits it (the enumeration order is fixed) stands for the others
+                    k0 = (shape, tuple(c for c, _, _ in steps[:i + 1]), kind.split("@")[0].split(":")[0])
+                    if k0 in e_seen:
+                        B.violation("C15/hierarchy/roundtrip-in-any-order", e_seen[k0], detail)
+                        continue
+                    m = e_shrink(src, vals, steps[:i + 1], kind)
+                    k = (shape, tuple(c for c, _, _ in m))
+                    e_seen[k0] = e_seen.get(k)
+                    if e_seen[k0] is not None:
+                        B.violation("C15/hierarchy/roundtrip-in-any-order", e_seen[k], detail)
+                        continue
+                    det = e_run(src, vals, m)[2]
+                    witness = "part=E types=%s>%s kind=%s shape=%s steps=%s" % (
+                        ta, tb, kind, shape, ";".join("%s:%s:%s" % st for st in m))
+                    e_seen[k] = e_seen[k0] = witness
+                    B.violation("C15/hierarchy/roundtrip-in-any-order", witness,
+                                detail + " [after the earlier steps of this order; every step round-trips when run first]"
+                                if len(m) > 1 else det,
+                                make_replay_e("C15/hierarchy/roundtrip-in-any-order", witness, src, vals, m))
+    B.sample({"part": "E", "pairs(both directions)": 2 * len(E_PAIRS), "shapes": list(E_SHAPES), "orders": 6,
+              "level/api assignments per order": len(uniform) + (len(mixed) if tier == "thorough" else 2)})
+    if tier != "thorough":
+        B.note("quick: part E runs all 6 orders x the 6 uniform (level, api) assignments + 2 seed-chosen mixed "
+               "assignments (of %d) per (type pair, shape)" % len(mixed))
 
     # ---------------------------------------------------------------- part D: pseudo-random values
     pool = random_values(1500)
